@@ -158,7 +158,7 @@ fn parse_rect4(s: &str) -> Rectangle {
     let v: Vec<i64> = s.split(',').map(|t| t.parse().expect("bad rect")).collect();
     Rectangle::new(Point::new(v[0] as i32, v[1] as i32), Size::new(v[2] as u32, v[3] as u32))
 }
-fn parse_stack(s: &str) -> Vec<Ad> {
+pub(crate) fn parse_stack(s: &str) -> Vec<Ad> {
     if s == "-" {
         return vec![];
     }
@@ -593,8 +593,9 @@ impl Module for M {
          on an R1 (draw_iter only) and an R2 (native fills) root. Exhaustive part: every rectangle with corners in a \
          small grid as clip / crop area x every such rectangle as drawing area x six root boxes (non-origin, larger, \
          smaller, two empty), each with the call battery (fill_contiguous with stream lengths {0,1,2,w,wh-1,wh,wh+3}, \
-         fill_solid, draw_iter with unordered/duplicate/outside points, clear); all kind pairs (quick) / triples \
-         (thorough) of adapters over parameter samples; then seeded random histories of 1..=6 calls. An op is \
+         fill_solid, draw_iter with unordered/duplicate/outside points, clear); all kind pairs over parameter samples and \
+         all 64 kind triples (quick: one parameter choice per kind, thorough: two); then seeded random histories of \
+         1..=6 calls (quick: depth uniform in 0..=2 plus a sample of 500 depth-3 stacks, thorough: uniform in 0..=3). An op is \
          non-trivial when the reference map after the last call is non-empty; distinct = distinct op text."
     }
 
@@ -675,6 +676,23 @@ impl Module for M {
                     }
                 }
             }
+            if quick {
+                // depth 3 in the quick tier (the property says "nested to depth 3"): all 64 kind
+                // stacks with one parameter choice per kind; a seeded sample of random depth-3
+                // stacks follows below
+                let small: Vec<Ad> = vec![Ad::Clip(sample_rects[2]), Ad::Crop(sample_rects[1]), Ad::Trans(sample_offs[1]), Ad::Conv];
+                for root in &roots[..2] {
+                    for a1 in &small {
+                        for a2 in &small {
+                            for a3 in &small {
+                                for a in &areas[..2] {
+                                    emit(fmt_op(root, &[a1.clone(), a2.clone(), a3.clone()], &battery(a, lo, hi)));
+                                }
+                            }
+                        }
+                    }
+                }
+            }
             if !quick {
                 // depth 3: all 64 kind stacks, two parameter choices per kind
                 let small: Vec<Ad> = vec![
@@ -750,6 +768,26 @@ impl Module for M {
             let maxd = if quick { 2 } else { 3 };
             let depth = rng.below(maxd + 1) as usize;
             let stack: Vec<Ad> = (0..depth).map(|_| random_ad(rng, scale)).collect();
+            let ncalls = rng.range(1, 6) as usize;
+            let calls: Vec<Call> = (0..ncalls).map(|_| random_call(rng, scale)).collect();
+            emit(fmt_op(&root, &stack, &calls));
+        }
+        // quick tier: the random histories above nest to depth <= 2 (uniform 0..=2); a seeded sample
+        // of depth-3 stacks so that quick evidence covers the depth the property names (the
+        // thorough tier draws depth uniformly from 0..=3 above)
+        let n3 = match (c01, quick) {
+            (true, true) => 150,
+            (false, true) => 500,
+            _ => 0,
+        };
+        for _ in 0..n3 {
+            let scale = *rng.pick(&[3i64, 5, 8, 16]);
+            let root = if rng.chance(1, 10) {
+                Rectangle::new(Point::new(rng.range(-3, 3) as i32, rng.range(-3, 3) as i32), Size::new(rng.below(2) as u32 * 4, 0))
+            } else {
+                random_rect(rng, scale)
+            };
+            let stack: Vec<Ad> = (0..3).map(|_| random_ad(rng, scale)).collect();
             let ncalls = rng.range(1, 6) as usize;
             let calls: Vec<Call> = (0..ncalls).map(|_| random_call(rng, scale)).collect();
             emit(fmt_op(&root, &stack, &calls));
